@@ -53,6 +53,17 @@ def c10(ck):
         for k in ks:
             f = dict(s.get("faults", {}), dest_fail_at=k)
             faulted.append(dict(s, id=f"{s['id']}/fail@{k}", faults=f, prefixes="last", observe=True))
+    # 3. short writes: the destination accepts only part of one write (every k-th write call after the header/directory one),
+    #    and is then full (the dump must abort consistently) or keeps accepting (the dump must complete consistently)
+    nshort = 0
+    for s, r in zip(base, runs):
+        writes = [p["call"] for p in r["dumps"][0]["prefixes"] if p["kind"] == "write"][1:]
+        step = 1 if not quick else max(1, len(writes) // 4)
+        for j, k in enumerate(writes[::step]):
+            for n, full in ((1, True), (5 + j, False)):
+                f = dict(s.get("faults", {}), dest_short_at=[k, n, full])
+                faulted.append(dict(s, id=f"{s['id']}/short@{k}/{n}/{'full' if full else 'cont'}", faults=f, prefixes="last", observe=True, short=True, full=full))
+                nshort += 1
     fr = dumps.run_scenarios(ck, faulted, "c10_fault")
     for r in fr:
         if not r["dumps"]:
@@ -60,7 +71,13 @@ def c10(ck):
             continue
         d = r["dumps"][0]
         e = dumps.prefix_events(d, r["id"])
-        e[0]["injected"] = True
+        if not r["scn"].get("short"):
+            e[0]["injected"] = True
+        elif d.get("outcome") not in (("ok", "err") if r["scn"].get("full") else ("ok",)):
+            # a short write that the destination then completes must not abort the dump; with a full disk the dump may
+            # complete (only overwrites were left) or abort with an error - nothing else
+            e[0]["injected"] = True
+            e[0]["outcome"] = f"{d.get('outcome')}-after-short-write"
         evs += e
     core.export_lines(evs, out)
 
@@ -72,6 +89,7 @@ def c10(ck):
         return ({"tag": tag}, f"after destination call #{e['call']} ({e['kind']}) of {hist[0].get('origin')} the destination holds {e['fileLen']} bytes but directory entries {bad[:2]} (type, rva, size, end of referenced data) point beyond them")
     util.judge_parallel(ck, "Trace_Prefix", out, "prefix of the destination after every call of fault-free dumps + final prefix of dumps aborted by an injected failure at each call index", "DirSection", describe, jobs=4)
     ck.cov["distinct_nontrivial"] = sum(ncalls) + len(faulted)
+    ck.cov["short_write_cases"] = nshort
     ck.cov["rule"] = "one case = one boundary between two destination calls of one dump (fault-free: all boundaries decoded; faulted: the call at that index fails); distinct by (option combination, call index)"
     ck.cov["exhaustive"] = True
     ck.cov["decided_by"] = {"presence of header/directory, extents of streams and of what they reference vs. bytes present": "spec", "decoding of the truncated image": "mdparse (independent decoder)"}
@@ -406,6 +424,12 @@ def _reg_targets(quick, seed):
             threads[1]["mode"] = "rsp0"
             threads[3]["mode"] = "rsp0"
         scns.append({"id": f"regs/n{n}/{k}", "target": {"threads": threads}, "writer": {"blamed": "main"}, "want_regs": True})
+    # a crash context whose own thread id field does not name the blamed thread (another thread / nobody / zero): the writer goes by
+    # the blamed thread; every other thread keeps its own registers
+    for k, ctid in enumerate([{"slot": 2}, 0, 999999, "main"]):
+        threads = [{"mode": "pause", "stack_pages": 2, "sp_off": 300 + 64 * i, "seed": 7000 + 10 * k + i} for i in range(4)]
+        scns.append({"id": f"regs/ctx-tid/{k}", "target": {"threads": threads, "regions": [{"name": "code", "len": 4096, "exec": True}]}, "want_regs": True,
+                     "writer": {"blamed": {"slot": 0}, "crash_context": {"sp": {"thread_sp": 0}, "ip": {"region": "code", "off": 64}, "tid": ctid, "gregs_seed": 4242 + k}}})
     return scns
 
 
@@ -473,6 +497,8 @@ def _ctx_scenarios(quick, seed):
             sp = {"thread_sp": blamed["slot"]} if isinstance(blamed, dict) else {"thread_sp": 0}
             w["crash_context"] = {"sp": sp, "ip": {"region": "code", "off": rnd.randrange(0, 8192)}, "gregs_seed": seed * 1000 + k, "fp_seed": seed * 77 + k,
                                   "siginfo": {"signo": SIGNOS[(k - k // 3) % len(SIGNOS)], "code": rnd.choice([1, 2, 128, -6]), "addr": hex(rnd.getrandbits(64))}}
+        if "crash_context" in w and k % 4 == 1 and n > 1:
+            w["crash_context"]["tid"] = [0, {"slot": (blamed["slot"] + 1) % n if isinstance(blamed, dict) else 0}][(k // 4) % 2]
         scns.append({"id": f"ctx/{k}", "target": tgt, "writer": w, "want_regs": True})
     return scns
 
@@ -608,6 +634,15 @@ def _mem_scenarios(quick, seed):
         if k < len(ipoffs) or rnd.random() < 0.7:
             w["crash_context"] = {"sp": {"thread_sp": 0}, "ip": ip}
         scns.append({"id": f"mem/{k}/{name}", "target": tgt, "writer": w})
+    # application regions that lie inside a dumped thread stack (a buffer in a live frame), with and without sanitising:
+    # the region must still be the target's bytes (the stack copy next to it may have been rewritten)
+    for k, san in enumerate([True, False]):
+        tgt = dumps.base_target(3, regions=[{"name": "code", "len": 4096, "exec": True}])
+        w = {"blamed": {"slot": 0}, "sanitize": san, "app_memory": [{"addr": {"thread_sp": 1, "off": 64}, "len": 256}, {"addr": {"thread_sp": 2, "off": 0}, "len": 8},
+                                                                   {"addr": {"thread_sp": 0, "off": 128}, "len": 512}]}
+        if k == 0:
+            w["crash_context"] = {"sp": {"thread_sp": 0}, "ip": {"region": "code", "off": 100}}
+        scns.append({"id": f"mem/in-stack/{'sanitize' if san else 'plain'}", "target": tgt, "writer": w})
     # shortened stacks (size limit, > 20 threads, stack pointers on both sides of the 2 KiB chunk boundary): their regions too
     # must reproduce target memory at the recorded range
     for n, lim in ([(24, 1000), (40, 300000)] if quick else [(n, l) for n in (21, 24, 40, 64) for l in (1000, 200000, 300000)]):
@@ -655,6 +690,8 @@ def dumps_resolve(spec, report):
         return report["regions"][spec["region_end"]]["addr"] + report["regions"][spec["region_end"]]["len"] + off
     if "region_map" in spec:
         return report["regions"][spec["region_map"]]["map_start"] + off
+    if "thread_sp" in spec:
+        return report["threads"][spec["thread_sp"]]["sp"] + off
     raise KeyError(spec)
 
 
